@@ -229,8 +229,13 @@ let () =
           let c = { c_wait_for_difop = bool_of wait; c_dense = bool_of dense; c_split_mode = zi mode; c_split_angle = zi angle; c_num_blks = zi nblk;
                     c_min_dist = dy_of_f32bits (int_of_string minb); c_max_dist = dy_of_f32bits (int_of_string maxb);
                     c_start_angle = zi st; c_end_angle = zi en; c_lidar_clock = bool_of lclock; c_ts_first = bool_of tsfirst;
-                    c_pkt_cb = bool_of pktcb; c_tz = zi tz; c_user = zi user; c_tail = zi tail } in
+                    c_pkt_cb = bool_of pktcb; c_tz = zi tz; c_user = zi user; c_tail = zi tail; c_from_file = false } in
           pend.cfgs <- (int_of_string i, (desc_of_code (int_of_string ty), c)) :: pend.cfgs
+        | ["CF"; i] ->
+          let i = int_of_string i in
+          let (d, c) = List.assoc i pend.cfgs in
+          (* the constructor clears wait_for_difop when config_from_file is set *)
+          pend.cfgs <- (i, (d, { c with c_from_file = true; c_wait_for_difop = false })) :: List.remove_assoc i pend.cfgs
         | "TF" :: i :: bits when List.length bits = 6 ->
           Hashtbl.replace tfs (int_of_string i) (Array.of_list (List.map (fun b -> Int32.float_of_bits (Int32.of_string ("0u" ^ b))) bits))
         | "A" :: i :: toks ->
